@@ -33,7 +33,10 @@ def attr(rng):
 
 def start_tag(rng, name, selfclose=False):
     n = rng.choice([0, 0, 1, 1, 2, 3, 5])
-    s = '<' + name + ''.join(attr(rng) for _ in range(n))
+    parts = [attr(rng) for _ in range(n)]
+    # tag-soup detail: now and then an attribute is glued to the previous one without whitespace
+    parts = [a.lstrip() if (i > 0 and rng.random() < 0.12) else a for i, a in enumerate(parts)]
+    s = '<' + name + ''.join(parts)
     s += rng.choice(['', '', '', ' ', '\n', '  '])
     s += '/>' if selfclose else '>'
     return s
@@ -113,7 +116,8 @@ CORPUS = [
     '<?xml version="1.0"?>\r\n<a>\r\n</a>', '<a b="x>y">', "<a b='x\"y'/>", '<a><b></a></b>', '<a></b></a>', '</a>',
     '<!-- a -- b -->', '<!--->', '<![CDATA[x]]>', '<a x:y="1"/>', '<a xml:lang="en"/>', '<a b=>', '<a b="1"c="2">',
     '<a b = c>', '<a b c d>', '<a disabled n>', '<a n t r>', '<a b\tn="1">', '<a b\nn="1">', '<a é="1" Ñ>',
-    '<a 1="2">', '<a b=\'1\' b="2">', 'plain', '', '<', '<a', '<a b="', '&amp; &#160; &bogus;', '<a>&lt;</a>',
+    '<a 1="2">', '<img src="a.png"alt="" width="1"/>', "<li class='a'id='b' title='c'>item</li>", '<a b="1"c="2" d="3">x',
+    '<input type="checkbox"checked name="n">', '<a b=\'1\' b="2">', 'plain', '', '<', '<a', '<a b="', '&amp; &#160; &bogus;', '<a>&lt;</a>',
 ]
 
 
